@@ -353,7 +353,7 @@ theorem mem_licFilesOf {cs : ETree} (hd : elookup tree "LICENSES" = some (.dir c
     file (or its sibling) holds and whether or not it is binary -/
 theorem infos_of_override {p : List String} (h : hasOverride (chainOf c g p) = true) :
     (fileOf c g tree p).infos = reuseInfoOf (chainOf c g p) emptyOwn := by
-  simp [fileOf, reuseInfoOf, assemble, override_isEmpty, h, emptyOwn]
+  simp [fileOf, reuseInfoOf, assemble, override_isEmpty, h]
 
 /-- a run that ends with a report is `Model.generate` on the abstract project of the composed model -/
 theorem lintE2E_ok {files : List EFile} {r : Report} (h : lintE2E tbl c tree = .ok files r) :
